@@ -9,8 +9,6 @@ for cons in ("bc", "shaving"):
         nx.make_solver(nx.build_problem(case), {"cons": cons, "var": "first", "dom": "min"}).find_all()
     except Exception as e:  # noqa: BLE001
         print("warm: engine raised", repr(e))
-try:
-    nx.make_solver(nx.build_problem(case), {"cons": "bc", "var": "first", "dom": "min"}).minimize(0)
-except Exception as e:  # noqa: BLE001
-    print("warm: engine raised", repr(e))
+# (no optimisation here: its restart loop is the likeliest place for a broken tree to spin; the two small jitted helpers it
+# needs are compiled by the workers in about a second)
 print("warm")
